@@ -18,13 +18,20 @@
      wrote f ro bs ct                 "some writer produced file f from roots ro storing blocks bs in container
                                       ct" -- exactly the three cases of C01_writers_* below
      payload_of ro bs                 ld (enc_header ro 1) ++ enc_sections bs: header, then the sections
+     rh_step k o / run_multi / proj   the sequential readers as state machines (theories/ReaderHist.v): k = the legacy
+                                      root CarReader | the internal carv1 reader | the v2 BlockReader; operations
+                                      Open and Next (Next again after io.EOF allowed); run_multi runs any number of
+                                      readers under an interleaving schedule, run_one a single reader, proj i picks
+                                      reader i's operations / answers
+     positioned src pos               what a reader handed a seekable source holding src and standing at pos sees
      readers                          br_read_all (v2 BlockReader), new_reader/data_window (Reader.DataReader),
                                       root_read_all (root NewCarReader + Next), load_car (root LoadCar: the store
                                       calls), ro_open/ro_keys/ro_get (read-only blockstore), sto_open/sto_get *)
 From GoCar Require Import Bytes Varint Cid Header Frame V2Header Scan Index Store ReadOnly RootLoad
   Wf Deferred Traversal.
 From GoCarProofs Require Import HeaderFacts ScanFacts FinalWf ReadOnlyFacts ReadOnlyRefine ReadOnlyRoundTrip
-  ReadOnlyMain ReadOnlyReaders RoundTripWriters RoundTrip.
+  ReadOnlyMain ReadOnlyReaders RoundTripWriters RoundTrip ReaderHistFacts.
+From GoCar Require Import ReaderHist.
 
 (* ---- the writers: what each produces ------------------------------------------------------------------------ *)
 (* blockstore.ReadWrite, storage.StorageCar on a file and on a stream (CARv1 only): within the limits of
@@ -238,3 +245,57 @@ Theorem C01_roundtrip_readable_storage_dec :
       forall c d p, In (c, d) bs -> cid_parse c = Some p -> sto_get s (key_of (q_whole q) c p) = OBytes d.
 Proof. exact rt_storage_dec. Qed.
 Print Assumptions C01_roundtrip_readable_storage_dec.
+
+(* ---- reader histories -------------------------------------------------------------------------------------- *)
+(* several readers of one kind alive at once over any archives (valid or not), any interleaving of Open and Next,
+   Next after io.EOF included: every reader answers exactly what it answers when run alone *)
+Theorem C01_readers_are_independent :
+  forall hok hdrdec k o sched sts i s,
+    nth_error sts i = Some s ->
+    proj i (run_multi rhstate rhans rhop (rh_step hok hdrdec k o) sts sched)
+    = run_one rhstate rhans rhop (rh_step hok hdrdec k o) s (proj i sched).
+Proof. exact rh_readers_independent. Qed.
+Print Assumptions C01_readers_are_independent.
+
+(* ... and a reader over a CARv1 with roots ro and blocks bs, opened and asked Next |bs| + extra times inside any
+   such interleaving, answers the roots, the blocks in order, then io.EOF every further time *)
+Theorem C01_reader_history_in_any_interleaving :
+  forall hok hdrdec k o ro bs extra sts sched i,
+    hdrdec (enc_header ro 1) = Some (hdr_roots ro, 1) ->
+    blen (enc_header ro 1) <= (match k with KRoot => root_max_section | _ => o_maxh o end) ->
+    blen (enc_header ro 1) < two63 ->
+    (match k with KBlock => True | _ => hdr_roots ro <> [] end) ->
+    Forall (block_ok_for hok k o) bs ->
+    nth_error sts i = Some (mkrh (ld (enc_header ro 1) ++ enc_sections bs) None) ->
+    proj i sched = HOpen :: nexts (length bs + extra) ->
+    proj i (run_multi rhstate rhans rhop (rh_step hok hdrdec k o) sts sched)
+    = HRoots (hdr_roots ro) :: map HBlock bs ++ repeat (HErr EEof) extra.
+Proof. exact rh_interleaved_history. Qed.
+Print Assumptions C01_reader_history_in_any_interleaving.
+
+(* the v2 BlockReader alone over a CARv2 container *)
+Theorem C01_block_reader_history_carv2 :
+  forall hok hdrdec o ro bs extra chi clo dpad ipad ib,
+    hdrdec (enc_header ro 1) = Some (hdr_roots ro, 1) ->
+    blen (enc_header ro 1) <= o_maxh o -> blen (enc_header ro 1) < two63 ->
+    hdrdec pragma_body = Some ([], 2) -> 10 <= o_maxh o ->
+    chi < two64 -> clo < two64 ->
+    blen (v2_file chi clo dpad ipad (payload_np ro bs 0) ib) < two63 ->
+    Forall (block_ok_for hok KBlock o) bs ->
+    run_one rhstate rhans rhop (rh_step hok hdrdec KBlock o)
+            (mkrh (v2_file chi clo dpad ipad (payload_np ro bs 0) ib) None) (HOpen :: nexts (length bs + extra))
+    = HRoots (hdr_roots ro) :: map HBlock bs ++ repeat (HErr EEof) extra.
+Proof. exact rh_history_v2. Qed.
+Print Assumptions C01_block_reader_history_carv2.
+
+(* ---- positioned sources ------------------------------------------------------------------------------------- *)
+(* NewBlockReader, ReadVersion and LoadIndex / GenerateIndex handed a seekable source positioned at a CAR that is
+   preceded by anything answer what they answer for the CAR alone (so every read-back theorem above applies, and
+   generated index offsets are relative to the CAR) *)
+Theorem C01_positioned_source_reads_the_car :
+  forall hok hdrdec o q pre file,
+    br_read_all hok hdrdec o (positioned (pre ++ file) (blen pre)) = br_read_all hok hdrdec o file /\
+    read_header hdrdec (o_maxh o) (positioned (pre ++ file) (blen pre)) = read_header hdrdec (o_maxh o) file /\
+    gen_flat hdrdec q 0 (positioned (pre ++ file) (blen pre)) = gen_flat hdrdec q 0 file.
+Proof. exact positioned_entry_points. Qed.
+Print Assumptions C01_positioned_source_reads_the_car.
